@@ -201,6 +201,9 @@ func (c *ctx) decorate(tv *TV) {
 				if r.Intn(2) == 0 {
 					id = uint16(150 + r.Intn(200))
 				}
+				if r.Intn(12) == 0 {
+					id = []uint16{0, 65535, 32768}[r.Intn(3)]
+				}
 				s.Fields = append(s.Fields, TField{id, randTV(r, ft, 2)})
 			}
 		}
